@@ -99,3 +99,43 @@ COMMON_ASSUMPTIONS = [
 COMMON_TRUSTED = [
     "correspondence: `probe run1` (one fresh OS process per run, public API as the repository's tests use it, goroutine dump at quiescence) vs extracted model `run-<mode>-<seed>` / `trace-<mode>-0` (extraction: ExtrOcamlBasic, ExtrOcamlString; std++ gmap extracted as is)",
 ]
+
+
+def accepted_set_check(b, prop, seed, tier, is_bad):
+    """the theorems speak about what the MODEL's checker accepts; the runs only cover what the model accepts.  So the
+    accepted sets must agree: every candidate program of the run suite (accepted or not) and the type-equality stress
+    programs are given to the real checker and to the model; a program the implementation accepts and the model
+    rejects is RUN by the real interpreter in the polarized modes - a run-time error there is a concrete violation of
+    safety, and without one the divergence is still reported (the safety theorem no longer covers what the code accepts)."""
+    from . import suite as S
+    from . import eqstress
+    progs = [(i, t) for i, t in R.candidate_programs(seed, tier)]
+    have = {t for _, t in progs}
+    for e in eqstress.programs():
+        i, t = e[0], e[-1]
+        if t not in have and R.is_closed(t):
+            progs.append(("eq:" + str(i), t))
+    cases = [(i, "", t) for i, t in progs]
+    first = lambda x: x.split("\t")[0].split(" ")[0]
+    impl, model, mism = S.correspond(b, "tc", cases, project=first, timeout=1800)
+    vio = []
+    wider = [(i, t) for i, _, t, a, m in mism if first(a) == "ACCEPT" and first(m) != "ACCEPT"]
+    for i, t in wider[:6]:
+        hit = None
+        for cfg in (("async", 0, None, 0), ("sync", 0, None, 0), ("np", 0, None, 0)):
+            r = R.rerun(b, t, cfg, 600)
+            if is_bad(r):
+                hit = (cfg, r)
+                break
+        if hit:
+            cfg, r = hit
+            vio.append(violation(prop, "runtime-error", "the real checker accepts a program the model rejects, and the interpreter then %s" % (r["panic"] or r["verdict"]),
+                                 i, t, cfg, {"panic": r["panic"], "verdict": r["verdict"], "prints": r["prints"]}, {"model_verdict": first(model.get(i, ""))}))
+    if wider and not vio:
+        i, t = wider[0]
+        vio.append(C.Violation("the real checker accepts %d program(s) the model rejects (e.g. %s); no run-time error was observed on them" % (len(wider), i),
+                               {"property": prop, "kind": "unproven", "no_longer_checks": [{"what": "correspondence (accepted sets)", "detail": t[:1500]}]}, found_input=False))
+    narrower = [i for i, _, t, a, m in mism if first(m) == "ACCEPT" and first(a) != "ACCEPT"]
+    cov = {"accepted_set_programs": len(progs), "accepted_by_both": sum(1 for i, _ in progs if first(impl.get(i, "")) == "ACCEPT" and first(model.get(i, "")) == "ACCEPT"),
+           "accepted_by_implementation_only": len(wider), "accepted_by_model_only": len(narrower)}
+    return cov, vio
